@@ -303,23 +303,26 @@ Section DynRFP.
   Lemma zero_div (x : K) : 0 / x = 0.
   Proof. rewrite (Fdiv_def (@Fth K)). ring. Qed.
 
+  (* closes goals about the generated initialisers up to ring identities, so that harmless
+     rewrites of the C++ arithmetic (commuted factors, x*(1/y) for x/y) do not break the proofs *)
+  Ltac gen_arith H1 H2 H3 :=
+    unfold dyncfg_linear, dyncfg_sinusoidal,
+      dyn_linear_phasenoise, dyn_linear_amplnoise, dyn_linear_modampl, dyn_linear_modtimedelta,
+      dyn_sinusoidal_phasenoise, dyn_sinusoidal_amplnoise, dyn_sinusoidal_modampl, dyn_sinusoidal_modtimedelta;
+    cbn [phasenoise amplnoise modampl modtimedelta];
+    rewrite ?H1, ?H2, ?H3; rewrite ?(Fdiv_def (@Fth K)); ring.
+
   Lemma dyncfg_zero_linear (env : string -> K) :
     env "phasespread"%string = 0 -> env "amplspread"%string = 0 -> env "modampl"%string = 0 ->
     let d := dyncfg_linear K fsqrt two_pi env in
     phasenoise d = 0 /\ amplnoise d = 0 /\ modampl d = 0.
-  Proof.
-    intros H1 H2 H3. unfold dyncfg_linear, dyn_linear_phasenoise, dyn_linear_amplnoise, dyn_linear_modampl.
-    cbn [phasenoise amplnoise modampl]. rewrite H1, H2, H3, !zero_div. auto.
-  Qed.
+  Proof. intros H1 H2 H3. cbn zeta. repeat split; gen_arith H1 H2 H3. Qed.
 
   Lemma dyncfg_zero_sinusoidal (env : string -> K) :
     env "phasespread"%string = 0 -> env "amplspread"%string = 0 -> env "modampl"%string = 0 ->
     let d := dyncfg_sinusoidal K fsqrt two_pi env in
     phasenoise d = 0 /\ amplnoise d = 0 /\ modampl d = 0.
-  Proof.
-    intros H1 H2 H3. unfold dyncfg_sinusoidal, dyn_sinusoidal_phasenoise, dyn_sinusoidal_amplnoise, dyn_sinusoidal_modampl.
-    cbn [phasenoise amplnoise modampl]. rewrite H1, H2, H3, !zero_div. auto.
-  Qed.
+  Proof. intros H1 H2 H3. cbn zeta. repeat split; gen_arith H1 H2 H3. Qed.
 
   (** zero spreads and zero modulation amplitude *as constructor arguments* *)
   Theorem zero_arguments_are_static (lin : bool) m len (env : string -> K) noise steps g ops :
@@ -345,12 +348,12 @@ Section DynRFP.
     nth_error (calc_modulation sync d noise steps) k =
     Some (sync + env "modampl"%string * sin (two_pi * env "modtimeincrement"%string * fz (Z.of_nat k)), 1).
   Proof.
-    intros H1 H2 Hk. destruct lin; cbn zeta.
-    - rewrite sinusoidal_modulation; auto.
-      + unfold dyncfg_linear, dyn_linear_phasenoise. cbn [phasenoise]. rewrite H1. apply zero_div.
-      + unfold dyncfg_linear, dyn_linear_amplnoise. cbn [amplnoise]. rewrite H2. apply zero_div.
-    - rewrite sinusoidal_modulation; auto.
-      + unfold dyncfg_sinusoidal, dyn_sinusoidal_phasenoise. cbn [phasenoise]. rewrite H1. apply zero_div.
-      + unfold dyncfg_sinusoidal, dyn_sinusoidal_amplnoise. cbn [amplnoise]. rewrite H2. apply zero_div.
+    intros H1 H2 Hk d.
+    assert (Hp : phasenoise d = 0) by (unfold d; destruct lin; gen_arith H1 H2 H1).
+    assert (Ha : amplnoise d = 0) by (unfold d; destruct lin; gen_arith H1 H2 H1).
+    assert (Hm : modampl d = env "modampl"%string) by (unfold d; destruct lin; gen_arith H1 H2 H1).
+    assert (Ht : modtimedelta d * fz (Z.of_nat k) = two_pi * env "modtimeincrement"%string * fz (Z.of_nat k))
+      by (unfold d; destruct lin; gen_arith H1 H2 H1).
+    rewrite (sinusoidal_modulation sync d noise steps k Hp Ha Hk), Hm, Ht. reflexivity.
   Qed.
 End DynRFP.
